@@ -356,8 +356,15 @@ func (w *mediaWorld) fire(ev *mediaEvent) {
 		case 5: // a burst
 			if len(sentNums) > 0 {
 				k := len(sentNums) - 1 - ev.A%len(sentNums)
-				for j := 0; j < 12; j++ {
-					seqs = append(seqs, sentNums[k]-uint16(j))
+				if ev.A%3 == 0 {
+					// a sparse burst: some of sixteen consecutive numbers
+					for _, j := range []int{0, 2, 5, 9, 14} {
+						seqs = append(seqs, sentNums[k]-uint16(j))
+					}
+				} else {
+					for j := 0; j < 12; j++ {
+						seqs = append(seqs, sentNums[k]-uint16(j))
+					}
 				}
 			}
 		}
@@ -365,8 +372,44 @@ func (w *mediaWorld) fire(ev *mediaEvent) {
 			return
 		}
 		var pairs []rtcp.NackPair
-		for _, s := range seqs {
-			pairs = append(pairs, rtcp.NackPair{PacketID: s})
+		if ev.A%2 == 0 && len(seqs) > 1 {
+			// the compact form real receivers use: a packet id and a bitmap
+			// of the sixteen numbers that follow it
+			base := seqs[0]
+			for _, s := range seqs {
+				if (base-s)&0x8000 == 0 {
+					base = s // the oldest of the burst, modulo 2^16
+				}
+			}
+			seen := map[uint16]bool{}
+			for _, s := range seqs {
+				seen[s-base] = true
+			}
+			maxOff := 0
+			for o := range seen {
+				if int(o) > maxOff {
+					maxOff = int(o)
+				}
+			}
+			for off := 0; off <= maxOff; {
+				if !seen[uint16(off)] {
+					off++
+					continue
+				}
+				np := rtcp.NackPair{PacketID: base + uint16(off)}
+				for b := 1; b <= 16; b++ {
+					if seen[uint16(off+b)] {
+						np.LostPackets |= 1 << (b - 1)
+					}
+				}
+				pairs = append(pairs, np)
+				off += 17
+			}
+			c.Count("feedback.nack_with_bitmap", 1)
+		} else {
+			for _, s := range seqs {
+				pairs = append(pairs, rtcp.NackPair{PacketID: s})
+			}
 		}
 		w.rtcpTo(rs, &rtcp.TransportLayerNack{MediaSSRC: ssrc, Nacks: pairs})
 		c.Count("feedback.nack", int64(len(seqs)))
